@@ -250,4 +250,101 @@ theorem segRel_symm (p1 p2 q1 q2 : Pt) : segRel q1 q2 p1 p2 = segRel p1 p2 q1 q2
       · exact Or.inr (Or.inl h)
   simp only [e1, e2, e3]
 
+/-! ### `area2`: shoelace sum, reversal, rotation of a closed ring -/
+
+/-- the shoelace term of one edge -/
+def edgeTerm (e : Pt × Pt) : Int := e.1.x * e.2.y - e.2.x * e.1.y
+
+theorem foldl_add_eq_sum {α} (f : α → Int) : ∀ (l : List α) (acc : Int),
+    l.foldl (fun acc e => acc + f e) acc = acc + (l.map f).sum
+  | [], acc => by simp
+  | x :: t, acc => by
+    simp only [List.foldl_cons, List.map_cons, List.sum_cons]
+    rw [foldl_add_eq_sum f t]; omega
+
+theorem area2_eq_sum (ring : List Pt) : area2 ring = ((edges ring).map edgeTerm).sum := by
+  unfold area2
+  have := foldl_add_eq_sum edgeTerm (edges ring) 0
+  simp only [edgeTerm, Int.zero_add] at this ⊢
+  exact this
+
+/-- appending a vertex appends the edge from the previous last vertex -/
+theorem edges_concat : ∀ (l : List Pt) (y x : Pt), edges (l ++ [y] ++ [x]) = edges (l ++ [y]) ++ [(y, x)]
+  | [], y, x => by simp [edges]
+  | [a], y, x => by simp [edges]
+  | a :: b :: t, y, x => by
+    have ih := edges_concat (b :: t) y x
+    simp only [List.cons_append, edges] at ih ⊢
+    rw [ih]
+
+theorem edges_reverse : ∀ (l : List Pt), edges l.reverse = ((edges l).map Prod.swap).reverse
+  | [] => by simp [edges]
+  | [a] => by simp [edges]
+  | a :: b :: t => by
+    have ih := edges_reverse (b :: t)
+    have e : (a :: b :: t).reverse = (b :: t).reverse ++ [a] := by simp
+    have e2 : (b :: t).reverse = t.reverse ++ [b] := by simp
+    rw [e, e2, edges_concat, ← e2, ih]
+    simp [edges]
+
+theorem edgeTerm_swap (e : Pt × Pt) : edgeTerm e.swap = - edgeTerm e := by
+  unfold edgeTerm; simp only [Prod.fst_swap, Prod.snd_swap]; ring
+
+theorem sum_map_neg {α} (f : α → Int) : ∀ l : List α, (l.map (fun e => - f e)).sum = - (l.map f).sum
+  | [] => by simp
+  | x :: t => by simp only [List.map_cons, List.sum_cons, sum_map_neg f t]; ring
+
+/-- reversing the vertex order negates the signed area (any vertex list) -/
+theorem area2_reverse (ring : List Pt) : area2 ring.reverse = - area2 ring := by
+  rw [area2_eq_sum, area2_eq_sum, edges_reverse, List.map_reverse, List.sum_reverse, List.map_map]
+  have : (edgeTerm ∘ Prod.swap) = fun e => - edgeTerm e := by
+    funext e; exact edgeTerm_swap e
+  rw [this, sum_map_neg]
+
+/-- start a closed ring at its second vertex -/
+def rotate1 : List Pt → List Pt
+  | _ :: b :: t => b :: t ++ [b]
+  | l => l
+
+theorem edges_append_last : ∀ (l : List Pt) (a x : Pt), l.getLast? = some a →
+    edges (l ++ [x]) = edges l ++ [(a, x)]
+  | [], a, x, h => by simp at h
+  | [b], a, x, h => by simp at h; subst h; simp [edges]
+  | b :: c :: t, a, x, h => by
+    have h' : (c :: t).getLast? = some a := by rw [List.getLast?_cons_cons] at h; exact h
+    have ih := edges_append_last (c :: t) a x h'
+    simp only [List.cons_append, edges] at ih ⊢
+    rw [ih]
+
+/-- rotating a closed ring does not change the signed area -/
+theorem area2_rotate1 (ring : List Pt) (hc : ring.head? = ring.getLast?) : area2 (rotate1 ring) = area2 ring := by
+  match ring, hc with
+  | [], _ => rfl
+  | [_], _ => rfl
+  | a :: b :: t, hc =>
+    have hl : (b :: t).getLast? = some a := by
+      simp only [List.head?_cons] at hc
+      rw [List.getLast?_cons_cons] at hc
+      exact hc.symm
+    rw [area2_eq_sum, area2_eq_sum]
+    show ((edges ((b :: t) ++ [b])).map edgeTerm).sum = _
+    rw [edges_append_last (b :: t) a b hl]
+    simp only [edges, List.map_append, List.map_cons, List.map_nil, List.sum_append, List.sum_cons, List.sum_nil]
+    omega
+
+theorem rotate1_closed (ring : List Pt) (hc : ring.head? = ring.getLast?) :
+    (rotate1 ring).head? = (rotate1 ring).getLast? := by
+  match ring, hc with
+  | [], _ => rfl
+  | [_], _ => rfl
+  | a :: b :: t, _ =>
+    have : (b :: t ++ [b]).getLast? = some b := by
+      rw [show b :: t ++ [b] = (b :: t) ++ [b] from rfl, List.getLast?_append]; simp
+    simp only [rotate1, List.head?_cons]
+    exact this.symm
+
+/-- the signed area of a triangle ring is the orientation determinant -/
+theorem area2_triangle (a b c : Pt) : area2 [a, b, c, a] = det a b c := by
+  unfold area2 det; simp [edges]; ring
+
 end GeosModel.Kernel
